@@ -80,10 +80,50 @@ fn isolated_library(src: &str, filename: &str) -> Result<(Vec<u8>, bool), String
     Ok((iso.frames[1].clone(), iso.frames[0] == [1]))
 }
 
+/// Optional leading filler that makes the text longer than k x 8192 bytes with multi-byte characters
+/// around that offset (input arrives in reads of that size), as a comment or as a printed string.
+#[derive(Debug, Clone, Copy)]
+pub struct Pad {
+    /// 0 = `# filler`, 1 = `make zzpad get "filler"` + `shout(zzpad.len())`
+    pub kind: u8,
+    /// 0..4 ASCII bytes in front of the repeated character (alignment)
+    pub shift: u8,
+    /// 0 = `é` (2 bytes), 1 = `世` (3 bytes), 2 = `🌎` (4 bytes)
+    pub ch: u8,
+    /// the filler ends 8..16 bytes after boundary x 8192 (1..=3)
+    pub boundary: u8,
+}
+
+impl Pad {
+    fn wrap(&self, base: &str) -> String {
+        let ch = ["é", "世", "🌎"][usize::from(self.ch % 3)];
+        let head = if self.kind == 0 { "# " } else { "make zzpad get \"" };
+        let target = usize::from(self.boundary.clamp(1, 3)) * 8192 + 8;
+        let mut s = String::with_capacity(target + base.len() + 64);
+        s.push_str(head);
+        for _ in 0..self.shift % 4 {
+            s.push('x');
+        }
+        while s.len() < target {
+            s.push_str(ch);
+        }
+        if self.kind == 0 {
+            s.push('\n');
+        } else {
+            s.push_str("\"\nshout(zzpad.len())\n");
+        }
+        s.push_str(base);
+        s
+    }
+}
+
 #[derive(Debug, Clone)]
 pub struct ProgSpec {
     pub tape: Vec<u8>,
     pub injection: Option<(u8, u16, u8)>,
+    pub pad: Option<Pad>,
+    /// sizes of the leading writes when the text is fed through standard input (rest in one write)
+    pub feed: Vec<u16>,
 }
 
 impl ProgSpec {
@@ -92,30 +132,59 @@ impl ProgSpec {
         if let Some((op, site, variant)) = self.injection {
             let _ = inject(&mut p, &Injection { op, site, variant });
         }
-        to_source(&p)
+        let base = to_source(&p);
+        match &self.pad {
+            Some(pad) => pad.wrap(&base),
+            None => base,
+        }
     }
     fn to_json(&self) -> J {
-        json!({"tape": hex(&self.tape), "injection": self.injection.map(|(a, b, c)| json!([a, b, c]))})
+        json!({
+            "tape": hex(&self.tape),
+            "injection": self.injection.map(|(a, b, c)| json!([a, b, c])),
+            "pad": self.pad.map(|p| json!([p.kind, p.shift, p.ch, p.boundary])),
+            "feed": self.feed,
+        })
     }
     fn from_json(j: &J) -> Option<ProgSpec> {
+        let n = |a: &Vec<J>, i: usize| a.get(i).and_then(J::as_u64).unwrap_or(0);
         Some(ProgSpec {
             tape: unhex(j.get("tape")?.as_str()?),
-            injection: j.get("injection").and_then(J::as_array).map(|a| {
-                (a[0].as_u64().unwrap_or(0) as u8, a[1].as_u64().unwrap_or(0) as u16, a[2].as_u64().unwrap_or(0) as u8)
-            }),
+            injection: j.get("injection").and_then(J::as_array).map(|a| (n(a, 0) as u8, n(a, 1) as u16, n(a, 2) as u8)),
+            pad: j
+                .get("pad")
+                .and_then(J::as_array)
+                .map(|a| Pad { kind: n(a, 0) as u8, shift: n(a, 1) as u8, ch: n(a, 2) as u8, boundary: n(a, 3) as u8 }),
+            feed: j
+                .get("feed")
+                .and_then(J::as_array)
+                .map(|a| a.iter().filter_map(J::as_u64).map(|x| x as u16).collect())
+                .unwrap_or_default(),
         })
     }
 }
 
 fn prog_strategy() -> impl Strategy<Value = ProgSpec> {
-    prop_oneof![
-        3 => tape_strategy(500).prop_map(|tape| ProgSpec { tape, injection: None }),
+    let base = prop_oneof![
+        3 => tape_strategy(500).prop_map(|tape| (tape, None)),
         1 => (tape_strategy(300), 0..OPS, any::<u16>(), any::<u8>())
-            .prop_map(|(tape, op, site, variant)| ProgSpec { tape, injection: Some((op, site, variant)) }),
-    ]
+            .prop_map(|(tape, op, site, variant)| (tape, Some((op, site, variant)))),
+    ];
+    let pad = prop_oneof![
+        3 => Just(None),
+        1 => (0u8..2, 0u8..4, 0u8..3, 1u8..4).prop_map(|(kind, shift, ch, boundary)| Some(Pad { kind, shift, ch, boundary })),
+    ];
+    let feed = prop_oneof![
+        2 => Just(Vec::new()),
+        1 => prop::collection::vec(
+            prop_oneof![3 => 1u16..64, 2 => prop::sample::select(vec![4095u16, 4096, 8191, 8192, 8193, 16_383]), 1 => 64u16..20_000],
+            1..5
+        ),
+    ];
+    (base, pad, feed).prop_map(|((tape, injection), pad, feed)| ProgSpec { tape, injection, pad, feed })
 }
 
-fn run_cli(build: Build, route: u8, src: &str, dir: &proc::TempDir) -> Option<(proc::Output, String)> {
+fn run_cli(build: Build, route: u8, src: &str, feed: &[u16], dir: &proc::TempDir) -> Option<(proc::Output, String)> {
     let exe = proc::naija_path(build);
     let mut run = proc::Run::new(&exe);
     run.timeout = Duration::from_secs(20);
@@ -134,7 +203,20 @@ fn run_cli(build: Build, route: u8, src: &str, dir: &proc::TempDir) -> Option<(p
         _ => {
             filename = "<stdin>".to_string();
             run.args = vec!["-".into()];
-            run.stdin = proc::StdinPlan::Pipe(vec![proc::Chunk { bytes: src.as_bytes().to_vec(), pause_ms: 0 }]);
+            // the text goes down the pipe in the planned writes (they may split characters)
+            let bytes = src.as_bytes();
+            let mut chunks = Vec::new();
+            let mut off = 0usize;
+            for n in feed {
+                let n = usize::from(*n).min(bytes.len() - off);
+                if n == 0 {
+                    break;
+                }
+                chunks.push(proc::Chunk { bytes: bytes[off..off + n].to_vec(), pause_ms: 2 });
+                off += n;
+            }
+            chunks.push(proc::Chunk { bytes: bytes[off..].to_vec(), pause_ms: if off > 0 { 2 } else { 0 } });
+            run.stdin = proc::StdinPlan::Pipe(chunks);
         }
     }
     proc::run(&run).ok().map(|o| (o, filename))
@@ -156,7 +238,7 @@ fn check_cli(ctx: &mut ShardCtx, spec: &ProgSpec, builds: &[Build]) -> Outcome {
     let mut first: Option<(Vec<u8>, proc::End)> = None;
     for &build in builds {
         for route in 0..3u8 {
-            let Some((out, filename)) = run_cli(build, route, &src, &dir) else {
+            let Some((out, filename)) = run_cli(build, route, &src, &spec.feed, &dir) else {
                 ctx.inconclusive += 1;
                 return Outcome::Discard("cannot spawn naija");
             };
@@ -192,6 +274,14 @@ fn check_cli(ctx: &mut ShardCtx, spec: &ProgSpec, builds: &[Build]) -> Outcome {
                             what: format!("{where_}: exit status {code}, library says success={want_ok}\n--- program ---\n{src}"),
                             input,
                         });
+                    }
+                    if out.stdout != lib.0
+                        && lib.0.windows(14).any(|w| w == b"Stack overflow")
+                        && out.stdout.windows(14).any(|w| w == b"Stack overflow")
+                    {
+                        // how many levels fit into the stack budget depends on the build profile
+                        // (C08's matter); both sides did report the overflow
+                        return Outcome::Discard("depth limit reached: level count differs between build profiles");
                     }
                     if out.stdout != lib.0 {
                         let cli_s = String::from_utf8_lossy(&out.stdout);
@@ -232,9 +322,18 @@ fn check_cli(ctx: &mut ShardCtx, spec: &ProgSpec, builds: &[Build]) -> Outcome {
     if lib_out.windows(7).any(|w| w == b"warning") {
         ctx.class("program has warnings");
     }
+    if (1..=src.len() / 8192).any(|k| !src.is_char_boundary(k * 8192)) {
+        ctx.class("text longer than 8 KiB with a character across a multiple of 8192 bytes");
+    } else if src.len() > 8192 {
+        ctx.class("text longer than 8 KiB");
+    }
+    if !spec.feed.is_empty() {
+        ctx.class("standard input delivered in several writes");
+    }
     if lines >= 3 {
         ctx.nontrivial(hash_str(&src));
-        ctx.sample("cli program", J::String(src.clone()));
+        let shown = if src.len() > 600 { format!("{} ... ({} bytes)", &src[..src.floor_char_boundary(300)], src.len()) } else { src.clone() };
+        ctx.sample("cli program", J::String(shown));
     }
     Outcome::Pass
 }
@@ -335,7 +434,9 @@ impl Check for C14 {
 
     fn rule(&self) -> String {
         "Programs: `general` profile (accepted, incl. planted runtime errors and warnings) and C09-injected variants (statically \
-         rejected). (a) Each program is run through the real binary by file, --eval and stdin in the dev build (and, for a \
+         rejected); a quarter carry a leading filler (comment or printed string) that makes the text longer than 8, 16 or 24 KiB \
+         with 2-, 3- or 4-byte characters across that offset, and a third of the stdin runs deliver the text in several writes \
+         that may split characters. (a) Each program is run through the real binary by file, --eval and stdin in the dev build (and, for a \
          sample, the release build) and through the library pipeline with three separate fresh arenas using the same file \
          name: stdout must be byte-identical to rendered resolver warnings + shout lines + rendered runtime diagnostics, the \
          exit status 0 iff no error-level diagnostic, never a signal. (b) Histories: 1..4 programs, an order of 1..8 runs \
